@@ -185,6 +185,10 @@ var splitsReplacementChar bool
 
 var oracleBroken int64
 
+// The hypothesis of Props.C02Text / C02Refine on the oracle (`Respects`): a cluster never extends over
+// a C0 control (uniseg GB4/GB5 — must stay 0) nor over an invalid byte (the region of finding F102d).
+var oracleJoinsC0, oracleJoinsInvalid int64
+
 // clusterLen = number of runes of the first grapheme cluster of the rune sequence starting at
 // offset i, found the way Parser.print finds it (growing prefixes); also checks the hypothesis the
 // model relies on: each shorter prefix was a single whole cluster and the final cluster is the
@@ -205,6 +209,15 @@ func clusterLen(s []byte, i int) int {
 				retryMu.Unlock()
 			}
 			break
+		}
+		if r2 < 0x20 || (r2 == utf8.RuneError && n2 == 1) {
+			retryMu.Lock()
+			if r2 < 0x20 {
+				oracleJoinsC0++
+			} else {
+				oracleJoinsInvalid++
+			}
+			retryMu.Unlock()
 		}
 		b = nb
 		count++
@@ -411,6 +424,28 @@ var textAlphabet = []string{
 	"\u200b", "\u00ad", "\ufffd", "\u0600", "\u0301", "\u200d", "\U0001F1E9", "\u0e33", "\t", "\r\n", "\n", "-",
 	"\uac01", "\u1100\u1161", "\xff", "\x80", "\xc3", "\xe2\x82", "\xf0\x9f",
 	"\xed\xa0\x80", "\xc0\xaf", "\xf4\x90\x80\x80", "\u0080", "\u009b", "\u00ff",
+}
+
+// short streams mixing text and sequences; each is run with every split into reads
+var mixedStreams = []string{
+	"a\x1b[1;2mb", "\xc3\xa9\x1b[38:5:1m", "\x1b[?25h\xe4\xb8\x96", "\x1b]\xc3\xa9\x07z", "\x1b]0;\xe4\xb8\x96\x1b\\",
+	"\x1bP1$r\xc3\xa9\x1b\\", "\x1b_\xf0\x9f\x94\xa5\x1b\\", "\x1bO\xc3\xa9a", "\x1b(B\xff\x1b7", "\xff\x1b[A\x80",
+	"e\xcc\x81\x1b[m", "\x1b[\xc3\xa9m", "\x1b\xc3\xa9[A", "\x1b]x\xff\xfe\x07", "\x1bPq\xed\xa0\x80\x1b\\",
+	"\xd8\x80\xff\x1b[m", "\xd8\x80\x1b[m", "\xd8\x80\x0ax", "a\x0d\x0ab", "\x1b[1\x0a;2m",
+	"\x1b[1\x18;2m", "\x1b]x\x1bA\x1b\\", "\x1b]\x1b\\a", "\x1b]x\x1b\x0a\\", "\x1bXabc\x1b\\d",
+	"\x1b^\xc3\xa9\x9c\x1b\\", "\x1b[:::m", "\x1b[;:;m", "\x1b[1:2:3;4m", "\x1b[<0;1;1M",
+	"\x1bP+q\x1b\\", "\x1bP0+r\x1b\\", "\x1b[>1;2c\xc2\x9b", "\xc2\x9b1m", "\xf0\x9f\x91\xa9\xe2\x80\x8d\x1b",
+	"\xf0\x9f\x1b[m", "\xe2\x82\x1b]", "\x1b\x7f\x1b\\", "\x1bO\x7fP", "\x1b[0 q\xc3",
+}
+
+// parameters beyond the range of a Go int
+var overflowStreams = []string{
+	"\x1b[9223372036854775808m", "\x1b[18446744073709551616m", "\x1b[123456789012345678901234567890m",
+	"\x1b[1;9223372036854775808:18446744073709551617;3m", "\x1b[?99999999999999999999999999999999999999h",
+	"\x1b[38:2:340282366920938463463374607431768211456:1m",
+	"\x1bP9223372036854775808q\x1b\\", "\x1bP1;9223372036854775807;9223372036854775808$rdata\x1b\\",
+	"\x1bP123456789012345678901234567890+qabc\x1b\\", "\x1bP9223372036854775807qx\x1b\\",
+	"\x1bP;18446744073709551616;|x\x1b\\",
 }
 
 func genNumber(rng *gen.Rng) string {
@@ -667,6 +702,56 @@ func runC02(r *hx.Run) error {
 		}
 		allSplits(s, []byte(t), "text-all-splits")
 	}
+	// (e') short mixed streams — text (multi-byte, invalid bytes) around and inside escape sequences and
+	// control strings — with EVERY split into reads at every byte offset (chunk_independent for all
+	// byte streams: inside a UTF-8 sequence, inside a parameter, between ESC and the introducer, …)
+	for _, m := range mixedStreams {
+		allSplits(s, []byte(m), "mixed-all-splits")
+	}
+	nMixed := 60
+	if r.Thorough {
+		nMixed = 1500
+	}
+	for i := 0; i < nMixed; i++ {
+		var sb strings.Builder
+		for sb.Len() < 6 {
+			if rng.Chance(1, 3) {
+				sb.WriteString(genText(rng, 1))
+			} else {
+				e, _ := genElement(rng)
+				sb.WriteString(e)
+			}
+		}
+		t := sb.String()
+		if len(t) > 11 {
+			t = t[:11]
+		}
+		allSplits(s, []byte(t), "mixed-all-splits")
+	}
+	// (e'') parameters that overflow a Go int (CSI: wraps mod 2^64; DCS: Atoi error, nil parameters) —
+	// judged by the oracle with the rendering proved in Props.C02Refine.codec_*_holds
+	for _, m := range overflowStreams {
+		s.add(kase{data: []byte(m), kind: "param-overflow"})
+		for k := 0; k < 3; k++ {
+			s.add(kase{data: []byte(m), sizes: randomSplit(rng, len(m)), kind: "param-overflow"})
+		}
+	}
+	for i := 0; i < 100; i++ {
+		var sb strings.Builder
+		sb.WriteString(gen.Pick(rng, []string{"\x1b[", "\x1b[?", "\x1bP", "\x1bP>"}))
+		for k := rng.Range(1, 4); k > 0; k-- {
+			for d := rng.Range(17, 32); d > 0; d-- {
+				sb.WriteByte(byte('0' + rng.Intn(10)))
+			}
+			if k > 1 {
+				sb.WriteString(gen.Pick(rng, []string{";", ";", ":", ";;"}))
+			}
+		}
+		sb.WriteString(gen.Pick(rng, []string{"m", "$p", "q", " q"}))
+		sb.WriteString("data\x1b\\")
+		d := sb.String()
+		s.add(kase{data: []byte(d), sizes: randomSplit(rng, len(d)), kind: "param-overflow"})
+	}
 	// (c) grammar-generated long streams, random splits
 	nLong := 2500
 	if r.Thorough {
@@ -705,5 +790,7 @@ func runC02(r *hx.Run) error {
 	s.flush()
 	r.Add("timer-artefact-retries", int(timerRetries))
 	r.Add("cluster-oracle-hypothesis-broken", int(oracleBroken))
+	r.Add("oracle-joins-c0", int(oracleJoinsC0))
+	r.Add("oracle-joins-invalid-byte", int(oracleJoinsInvalid))
 	return nil
 }
